@@ -114,7 +114,7 @@ fn cache_truth(seed: u64) -> Vec<TruthKey> {
 }
 
 fn cache_cap(hist: &str) -> u64 {
-    if hist == "empty" {
+    if hist == "empty" || hist == "subranges" {
         1 << 30
     } else {
         9000
@@ -167,7 +167,27 @@ pub fn prep(args: &Args) {
             let cd = dir.join("cache");
             std::fs::create_dir_all(&cd).unwrap();
             let truth = cache_truth(seed);
-            if hist != "empty" {
+            if hist == "subranges" {
+                // the key the victim will put whole already has some of its sub-ranges cached (capacity not binding):
+                // the victim's put supersedes them
+                let cache = DiskCache::initialize(&CacheConfig { cache_directory: cd.clone(), cache_size: cache_cap(&hist) }).unwrap();
+                let t = &truth[3];
+                let n = t.n();
+                let mut rs = vec![(0usize, 2.min(n)), (n - 1, n)];
+                if n >= 5 {
+                    rs.push((2, 4));
+                }
+                if rng.chance(1, 2) && n >= 4 {
+                    rs.push((1, 3)); // overlapping
+                }
+                for (a, b) in rs {
+                    let (o, d) = t.slice(a, b);
+                    let _ = cache.put(&t.key, &ChunkRange { start: a as u32, end: b as u32 }, &o, d);
+                }
+                let t0 = &truth[0];
+                let (o, d) = t0.slice(0, t0.n());
+                let _ = cache.put(&t0.key, &ChunkRange { start: 0, end: t0.n() as u32 }, &o, d);
+            } else if hist != "empty" {
                 let cache = DiskCache::initialize(&CacheConfig { cache_directory: cd.clone(), cache_size: cache_cap(&hist) }).unwrap();
                 for t in truth.iter().take(3) {
                     for _ in 0..2 {
@@ -356,7 +376,30 @@ pub fn check(args: &Args) {
                     Ok::<(), String>(())
                 });
                 reopened?;
-                Ok(json!({"shards": n_shards, "temp_files_ignored": n_temp, "files": files.len(), "cas": cas.len()}))
+                // the restarted process goes on: a (complete) consolidation over the directory the crash left behind
+                // must keep every record as well (history = interrupted operation, then the next one)
+                let target = if args.has("big") { 1 << 26 } else { 4000 };
+                let mut recovered = 0;
+                if let Ok(list) = consolidate_shards_in_directory(&sd, target) {
+                    for sfi in &list {
+                        if !sfi.path.exists() {
+                            return Err(format!("record-lost-after-restart-consolidate|consolidation after the restart reports shard {:?} which does not exist", sfi.path.file_name().unwrap_or_default()));
+                        }
+                    }
+                    let (files2, cas2, _, _) = shard_dir_state(&sd).map_err(|e| e.replace("partial-shard-under-final-name", "partial-shard-after-restart-consolidate"))?;
+                    for f in pre["files"].as_array().unwrap() {
+                        if !files2.contains_key(f.as_str().unwrap()) {
+                            return Err(format!("record-lost-after-restart-consolidate|file record {} retrievable before the interrupted operation is gone after the next consolidation", f.as_str().unwrap()));
+                        }
+                    }
+                    for c in pre["cas"].as_array().unwrap() {
+                        if !cas2.contains_key(c.as_str().unwrap()) {
+                            return Err(format!("record-lost-after-restart-consolidate|xorb record {} retrievable before the interrupted operation is gone after the next consolidation", c.as_str().unwrap()));
+                        }
+                    }
+                    recovered = 1;
+                }
+                Ok(json!({"shards": n_shards, "temp_files_ignored": n_temp, "files": files.len(), "cas": cas.len(), "restart_consolidations_checked": recovered}))
             },
             "localput" => {
                 let xd = dir.join("store").join("xorbs");
@@ -400,8 +443,27 @@ pub fn check(args: &Args) {
             "cacheput" | "cacheinit" => {
                 let cd = dir.join("cache");
                 let (invalid, valid) = cache_dir_state(&cd);
+                let no_eviction = cache_cap(&hist) >= (1 << 30);
+                let readable_chunks = |cache: &DiskCache| -> Vec<String> {
+                    let mut v = Vec::new();
+                    for (ki, t) in cache_truth(seed).iter().enumerate() {
+                        for i in 0..t.n() {
+                            if let Ok(Some(_)) = cache.get(&t.key, &ChunkRange { start: i as u32, end: i as u32 + 1 }) {
+                                v.push(format!("{ki}:{i}"));
+                            }
+                        }
+                    }
+                    v
+                };
                 if phase == "pre" {
-                    return Ok(json!({"invalid": invalid}));
+                    let mut readable = Vec::new();
+                    if no_eviction && op == "cacheput" {
+                        // pre-phase runs on a scratch copy of the prepared directory? no: on the base itself, read-only gets
+                        if let Ok(cache) = DiskCache::initialize(&CacheConfig { cache_directory: cd.clone(), cache_size: cache_cap(&hist) }) {
+                            readable = readable_chunks(&cache);
+                        }
+                    }
+                    return Ok(json!({"invalid": invalid, "readable": readable}));
                 }
                 let pre: Value = serde_json::from_str(&std::fs::read_to_string(args.str("pre", "")).map_err(|e| format!("io: {e}"))?).map_err(|e| format!("io: {e}"))?;
                 let pre_invalid: BTreeSet<String> = pre["invalid"].as_array().unwrap().iter().map(|v| v.as_str().unwrap().to_string()).collect();
@@ -426,7 +488,33 @@ pub fn check(args: &Args) {
                         }
                     }
                 }
-                Ok(json!({"valid_items": valid, "hits_judged": hits}))
+                // capacity not binding: whatever chunk was readable before the interrupted put is readable after the restart
+                let mut kept = 0;
+                if no_eviction {
+                    let now: BTreeSet<String> = readable_chunks(&cache).into_iter().collect();
+                    for r in pre["readable"].as_array().map(|a| a.as_slice()).unwrap_or(&[]) {
+                        if !now.contains(r.as_str().unwrap()) {
+                            return Err(format!("record-lost-after-crash|chunk {} (key:index) was readable from the cache before the interrupted put and is not after the restart (no eviction possible)", r.as_str().unwrap()));
+                        }
+                        kept += 1;
+                    }
+                }
+                // the restarted process goes on: the same put again must work and read back
+                if op == "cacheput" {
+                    let t = &truth[3];
+                    let (o, d) = t.slice(0, t.n());
+                    let _ = cache.put(&t.key, &ChunkRange { start: 0, end: t.n() as u32 }, &o, d);
+                    match cache.get(&t.key, &ChunkRange { start: 0, end: t.n() as u32 }) {
+                        Ok(Some(r)) if r.data.as_ref() == d => {},
+                        Ok(Some(_)) => return Err("wrong-data-after-crash|the put repeated after the restart reads back wrong data".into()),
+                        other => {
+                            if no_eviction {
+                                return Err(format!("record-lost-after-crash|the put repeated after the restart does not read back ({:?})", other.map(|o| o.is_some())));
+                            }
+                        },
+                    }
+                }
+                Ok(json!({"valid_items": valid, "hits_judged": hits, "pre_readable_chunks_kept": kept}))
             },
             _ => Err("unknown op".into()),
         }
